@@ -87,7 +87,6 @@ func worker(c *fw.Ctx) *fw.Stats {
 				continue
 			}
 			_, f := runOne(g, outcome, cn)
-			st.Evals++
 			st.States++
 			st.Outcome(fmt.Sprintf("%s/%s/%d-nodes/%d-edges", outcome, verdictWord(f), 1, 1))
 			if f != nil {
@@ -146,7 +145,6 @@ func worker(c *fw.Ctx) *fw.Stats {
 					cn = &counters{opsByKind: map[string]int64{}}
 				}
 				r, f := runOne(g, outcome, cn)
-				st.Evals++
 				st.States++
 				st.Outcome(fmt.Sprintf("%s/%s/%d-nodes/%d-edges", outcome, verdictWord(f), len(g.Nodes), g.edges()))
 				if f != nil {
@@ -207,6 +205,7 @@ func worker(c *fw.Ctx) *fw.Stats {
 func flushCounters(st *fw.Stats, cn *counters) {
 	st.Nontrivial += cn.mutatorAttempts
 	st.Transitions += cn.attempts
+	st.Evals += cn.attempts // evaluations = operations applied to nodes of executed modules (states = executed modules)
 	st.Count("operation_attempts", cn.attempts)
 	st.Count("mutator_attempts(pair changes a mutable twin)", cn.mutatorAttempts)
 	st.Count("non_mutating_attempts", cn.reads)
